@@ -221,6 +221,25 @@ func c11RunConf(in *c11In) Result {
 			sig = fmt.Sprintf("conf:%s:panic:unproved-obligation %s: %s", in.Dir, in.Site, c11DigitsRe.ReplaceAllString(trunc(strings.TrimPrefix(msg, "panic:"), 80), "N"))
 		}
 	}
+	if len(perkey) > 0 && cv < 2 && cx < 2 {
+		// the block against its keys alone: accepted exactly when every key alone is (when every key alone answered)
+		known, every := true, true
+		for _, p := range perkey {
+			if p != cN(0) && p != cN(1) {
+				known = false
+			}
+			if p != cN(0) {
+				every = false
+			}
+		}
+		if known && ((cv == 0) != every || (cx == 0) != every) {
+			ke := "some-key-alone-rejected"
+			if every {
+				ke = "every-key-alone-accepted"
+			}
+			sig = fmt.Sprintf("confkeys:%s:validate=%d:execute=%d:%s", in.Dir, cv, cx, ke)
+		}
+	}
 	if len(perkey) > 0 {
 		return Result{Term: cApp("CConfKeys", cList(perkey), cN(cv), cN(cx)), Obs: map[string]interface{}{"validate": trunc(v, 200), "execute": trunc(x, 200), "perkey": perkey},
 			Sig: sig, Nontrivial: true, Key: text, Class: fmt.Sprintf("confkeys%s:%s:%d%d", c11KeydepTag(in, perkey), in.Dir, cv, cx)}
